@@ -225,3 +225,155 @@ def set_shard_refusal_findings(F):
             yield ("restore-previous", bool(tcall) and bool(src) and all(hc.dominates(s_.block, tcall[0].block) and s_.block != tcall[0].block for s_ in src),
                    "the restored value is QueryRouter::shard() read before the command was executed",
                    "a refused SET SHARD does not put back the shard the session had before the command (it clears it or keeps the refused one): SHOW SHARD and the routing of later queries no longer follow the last accepted SET")
+
+
+def release_gate(F):
+    """the field of Server that Server::claim sets and that makes Server::is_bad (hence ServerPool::has_broken) answer
+    true on *every* path: returns (field or None, reason). A connection that a client claimed and left without a
+    completed checkin_cleanup (a `?` exit, a panic, a dropped future) is then discarded by bb8 instead of being
+    handed to the next client with the previous client's transaction still open."""
+    isbad = F.body("pgcat::server::Server::is_bad")
+    claim = F.body("pgcat::server::Server::claim")
+    hb = F.body("<pgcat::pool::ServerPool as bb8::api::ManageConnection>::has_broken")
+    if not (isbad and claim and hb):
+        return None, "Server::is_bad / Server::claim / ServerPool::has_broken not found"
+    if not hb.calls("pgcat::server::Server::is_bad"):
+        return None, "has_broken no longer consults Server::is_bad"
+    setf = {proj_fields(st["lhs"])[-1] for blk, i, st in claim.assigns() if proj_fields(st["lhs"]) and st["rv"]["k"] == "use" and const_int(st["rv"]["op"]) == 1}
+    sws = switches(isbad)
+    why = "is_bad tests none of the fields Server::claim sets (%s)" % sorted(setf)
+    for f in sorted(setf):
+        T, Fe = field_bool_edges(isbad, f, sws)
+        # assignments to the return place: `true` is fine, the field itself is fine (true when set), anything else may be false
+        maybe_false = []
+        returns_field = False
+        for b, i, st in isbad.assigns():
+            if st["lhs"]["l"] != 0 or st["lhs"]["p"]:
+                continue
+            rv = st["rv"]
+            if rv["k"] == "use" and const_int(rv["op"]) == 1:
+                continue
+            if rv["k"] == "use" and const_int(rv["op"]) is None and all(o.kind in ("place", "param") and o.proj and o.proj[-1] == "." + f for o in origins(isbad, rv["op"])):
+                returns_field = True
+                continue
+            # `return self.g` reached only where self.g was just tested true
+            if rv["k"] == "use" and const_int(rv["op"]) is None:
+                gs = {o.proj[-1][1:] for o in origins(isbad, rv["op"]) if o.kind in ("place", "param") and o.proj}
+                if len(gs) == 1:
+                    Tg, _ = field_bool_edges(isbad, next(iter(gs)), sws)
+                    if Tg and isbad.uncrossed_path([0], [b], edges=Tg) is None:
+                        continue
+            maybe_false.append(b)
+        if not T and not returns_field:
+            continue
+        if T and any(b in isbad.reach([d for _, d in T]) for b in maybe_false):
+            why = "is_bad can answer false although Server.%s is set" % f
+            continue
+        w = isbad.uncrossed_path([0], maybe_false, edges=Fe)
+        if w is not None:
+            why = "is_bad answers false on a path that never looks at Server.%s (%s)" % (f, isbad.describe_path(w))
+            continue
+        return f, ""
+    return None, why
+
+
+def parse_cache_key_gap(F):
+    """fields of messages::Parse that the encoder writes into the message sent to a server but that the pool-wide cache key
+    (Parse::get_hash) does not cover. `name` is rewritten per cache entry and `code`/`len` are fixed by the message kind.
+    Returns (missing fields or None when an anchor is absent, encoded fields, hashed fields)"""
+    enc = F.body("pgcat::messages::<impl core::convert::TryFrom<pgcat::messages::Parse> for bytes::bytes_mut::BytesMut>::try_from")
+    gh = F.body("pgcat::messages::Parse::get_hash")
+    adt = F.adts.get("pgcat::messages::Parse")
+    if not (enc and gh and adt):
+        return None, set(), set()
+    names = {f["name"] for f in adt["variants"][0]["fields"]}
+    encoded = (fields_read(enc) & names) - {"name", "code", "len"}
+    hashed = set()
+    for c in gh.calls("re:core::hash::Hash>::hash$|impl core::hash::Hash for .*>::hash$|^core::hash::Hash::hash$"):
+        hashed |= {p[1:] for o in origins(gh, c.args[0], taint=True) if o.kind in ("place", "param") for p in o.proj if p.startswith(".")} & names
+    return sorted(encoded - hashed), encoded, hashed
+
+
+def cleanup_mark_findings(F):
+    """the marks a client's SET / PREPARE leave on a server connection (CleanupState) are cleared only by CleanupState::reset(),
+    and reset() runs only after the clean-up query of checkin_cleanup (and after pgcat's own SETs in sync_parameters, right after the
+    checkout). Returns [(key, ok, good, bad)]"""
+    H = "pgcat::client::Client::handle::{closure#0}"
+    SERVER_IO = ("pgcat::server::Server::send", "pgcat::server::Server::recv", "pgcat::server::Server::query",
+                 "pgcat::server::Server::sync_parameters", "pgcat::server::Server::register_prepared_statement",
+                 "pgcat::client::Client::send_and_receive_loop", "pgcat::client::Client::send_server_message",
+                 "pgcat::client::Client::receive_server_message", "pgcat::client::Client::register_parse_to_server_cache",
+                 "pgcat::client::Client::ensure_prepared_statement_is_on_server")
+    h = F.body(H)
+    cc = F.body("pgcat::server::Server::checkin_cleanup::{closure#0}")
+    out = []
+    clearers = {}
+    for n_, b_ in F.bodies.items():
+        if n_.startswith("bin:"):
+            continue
+        for blk, i, st in b_.assigns():
+            pf = proj_fields(st["lhs"])
+            if pf[-1:] and pf[-1] in ("needs_cleanup_set", "needs_cleanup_prepare") and not (st["rv"]["k"] == "use" and const_int(st["rv"].get("op")) == 1):
+                clearers.setdefault(n_, set()).add(pf[-1])
+            if pf[-1:] == ["cleanup_state"]:
+                clearers.setdefault(n_, set()).add("cleanup_state")
+    extra = sorted(n_ for n_ in clearers if n_ not in ("pgcat::server::CleanupState::reset", "pgcat::server::CleanupState::new"))
+    out.append(("dirty-marks-monotone", "pgcat::server::CleanupState::reset" in clearers and not extra, "the dirty marks are cleared only by CleanupState::reset()",
+             "a dirty mark is cleared outside CleanupState::reset(): %s - what a CommandComplete tag says is not proof that the session is clean (RESET x / RESET ROLE / a RESET inside a rolled-back transaction all answer `RESET`), "
+             "the next client inherits the settings" % extra))
+    rc_ = sorted({c.body.name for c in F.all_calls("pgcat::server::CleanupState::reset")})
+    CC_, SP_ = "pgcat::server::Server::checkin_cleanup::{closure#0}", "pgcat::server::Server::sync_parameters::{closure#0}"
+    ok_reset = CC_ in rc_ and set(rc_) <= {CC_, SP_}
+    why_sp = ""
+    if ok_reset and cc:
+        q = [c for c in cc.calls("pgcat::server::Server::query") if not any(x.upper().startswith(("ROLLBACK", "ABORT")) for x in arg_strs(cc, c))]
+        rs = cc.calls("pgcat::server::CleanupState::reset")
+        # the reset follows the clean-up query (`?` leaves on Err)
+        ok_reset = bool(q) and bool(rs) and all(cc.dominates(q[0].block, r_.block) for r_ in rs)
+    if ok_reset and SP_ in rc_:
+        # sync_parameters issues pgcat's own SETs right after the checkout (before any client statement: C12-R1) and drops the mark those SETs caused;
+        # accepted only in that shape: the reset follows its own query, and handle calls sync_parameters before the transaction loop
+        sp = F.body(SP_)
+        q = sp.calls("pgcat::server::Server::query") if sp else []
+        rs = sp.calls("pgcat::server::CleanupState::reset") if sp else []
+        in_h = h.calls("pgcat::server::Server::sync_parameters") if h else []
+        claim_ = h.calls("pgcat::server::Server::claim") if h else []
+        callers = sorted({c.body.name for c in F.all_calls("pgcat::server::Server::sync_parameters")})
+        ok_reset = bool(q) and bool(rs) and all(sp.dominates(q[0].block, r_.block) for r_ in rs) and callers == [H] and len(in_h) == 1 and bool(claim_) and not [c for c in h.calls(*[x for x in SERVER_IO if not x.endswith("sync_parameters")]) if h.dominates(c.block, in_h[0].block)]
+        why_sp = " and by sync_parameters for the SETs pgcat itself issues right after the checkout, before any client statement"
+    out.append(("reset-after-cleanup-query", ok_reset, "CleanupState::reset() is called only by checkin_cleanup after the clean-up query" + why_sp,
+             "CleanupState::reset() is called from %s / not after the clean-up query: marks are dropped without cleaning the session" % rc_))
+    return out
+
+
+def admin_only_gate(F):
+    """in Client::startup: every path from entry to the AuthenticationOk write crosses `admin == true` or `admin_only == false`
+    (admin = the value stored into Client.admin; admin_only = startup's last parameter). Returns (ok or None if an anchor is missing, text)"""
+    S = "pgcat::client::Client::startup::{closure#0}"
+    s = F.body(S)
+    sp = F.body("pgcat::client::Client::startup")
+    if not (s and sp):
+        return None, "Client::startup not found"
+    auth_blocks = [c.block for c in s.calls("pgcat::messages::auth_ok")]
+    admin_ops = [st["rv"]["ops"][st["rv"]["fields"].index("admin")] for b_, blk, st in F.aggregates("pgcat::client::Client") if b_ is s]
+    if not auth_blocks or not admin_ops:
+        return None, "auth_ok call / Client aggregate in startup not found"
+    sws = switches(s)
+    admin_orig = {o.key()[:3] for o in origins(s, admin_ops[0]) if o.kind in ("bin", "call")}
+    adm = bool_value_edges(s, lambda o: o.key()[:3] in admin_orig, sws)
+    admin_true = {te for _, _, te, _ in adm}
+    idx = None
+    for b, i, st in sp.assigns():
+        rv = st["rv"]
+        if rv["k"] == "agg" and rv.get("agg") in ("coroutine", "closure") and strip_generics(rv["def"]) == S:
+            for k, op in enumerate(rv["ops"]):
+                if op_local(op) == sp.argc:
+                    idx = k
+    if idx is None or not adm:
+        return None, "admin_only upvar / branch on the admin value not found in startup"
+    ao = bool_value_edges(s, lambda o: o.kind in ("place", "param") and o.proj == (".%d" % idx,) and o.what == 1, sws)
+    ao_false = {fe for _, _, _, fe in ao}
+    wit = s.uncrossed_path([0], auth_blocks, edges=admin_true | ao_false)
+    if ao and wit is None:
+        return True, ""
+    return False, (s.describe_path(wit) if wit else "admin_only is never tested")
